@@ -23,9 +23,11 @@ import (
 	"fmt"
 	"math/rand"
 	"reflect"
+	"runtime"
 	"sort"
 	"strings"
 	"sync"
+	"sync/atomic"
 	"time"
 
 	corev1 "k8s.io/api/core/v1"
@@ -680,6 +682,82 @@ func run(r *mon.Report, tier string, idx int, rng *rand.Rand) {
 	}
 	if cs.placedEN {
 		r.Inc("cases_with_a_simulation_that_would_corrupt_shallow_copies")
+	}
+	if idx%3 == 0 {
+		cs.passAgainstDeletionMarks()
+	}
+}
+
+// passAgainstDeletionMarks: provisioning passes (their last step records nominations on the nodes they used) run while
+// another goroutine - the orchestration queue in the real system - sets and clears deletion marks on the same nodes. A pass
+// may change nominations and pod bookkeeping, nothing else: a mark the marker has just set must still be there when it looks
+// again (nobody else clears marks here).
+func (cs *caseState) passAgainstDeletionMarks() {
+	e := cs.d.Env
+	var ids []string
+	for n := range e.Cluster.Nodes() {
+		if n.Initialized() && !n.MarkedForDeletion() && n.ProviderID() != "" {
+			ids = append(ids, n.ProviderID())
+		}
+	}
+	sort.Strings(ids)
+	if len(ids) == 0 {
+		return
+	}
+	marked := func(id string) bool {
+		res := false
+		for n := range e.Cluster.Nodes() {
+			if n.ProviderID() == id {
+				res = n.MarkedForDeletion()
+			}
+		}
+		return res
+	}
+	// pending pods so that the passes have something to place (and nominate nodes for)
+	for i := 0; i < 3; i++ {
+		addPending(cs.rng, cs.d)
+	}
+	_ = e.SyncState()
+	var stop atomic.Bool
+	var lost atomic.Value
+	var toggles int64
+	done := make(chan struct{})
+	go func() {
+		defer close(done)
+		for i := 0; !stop.Load(); i++ {
+			id := ids[i%len(ids)]
+			e.Cluster.MarkForDeletion(id)
+			runtime.Gosched()
+			if !marked(id) && lost.Load() == nil {
+				lost.Store(id)
+			}
+			e.Cluster.UnmarkForDeletion(id)
+			atomic.AddInt64(&toggles, 1)
+		}
+	}()
+	passes, nominated := 0, 0
+	for i := 0; i < 6; i++ {
+		res, err := e.Prov.Schedule(e.Ctx)
+		if err != nil {
+			break
+		}
+		passes++
+		for _, en := range res.ExistingNodes {
+			if len(en.Pods) > 0 {
+				nominated++
+			}
+		}
+	}
+	stop.Store(true)
+	<-done
+	cs.r.Count("provisioning_passes_against_concurrent_deletion_marks", passes)
+	cs.r.Count("nodes_nominated_while_marks_were_toggled", nominated)
+	cs.r.Count("deletion_mark_toggles_during_passes", int(atomic.LoadInt64(&toggles)))
+	if v := lost.Load(); v != nil {
+		cs.r.Violate("provisioning-pass-drops-a-deletion-mark-set-concurrently", fmt.Sprintf("node %s was marked for deletion while provisioning passes were recording nominations; when the marker looked again the mark was gone (only the marker clears marks here)", v.(string)), cs.desc, nil)
+	}
+	for _, id := range ids {
+		e.Cluster.UnmarkForDeletion(id)
 	}
 }
 
